@@ -4,7 +4,8 @@
 
    Proved for every equation: with the simple-equations option the result
    is one placeholder of the display collection plus the final punctuation
-   mark, pinned at the start of the equation; an equation environment
+   mark, pinned at the start of the equation (unless the equation has no end:
+   then it keeps the rendering of the full mode with its error mark); an equation environment
    declared as removed leaves at most its final punctuation mark; the
    rotation of the display collection is cyclic and neighbours differ
    (C10).  Through the loop of the maths parser, full mode
@@ -26,12 +27,17 @@ Open Scope Z_scope.
 Theorem C11_simple_mode : forall T rec fuel st buf t ename st' o rest,
   expand_display_math T rec fuel st buf t ename false = Ok (st', (o, rest)) ->
   displayed_simple st' = true ->
-  exists ph pc,
+  (exists ph pc,
     hd_error (get_repls st' true) = Some ph /\
     o = [ActionT (pos t); SpaceF (pos t) [c_space; c_space]; TextF (pos t) ph]
         ++ pc ++ [ActionT (pos t)] /\
     (pc = [] \/ exists c, pc = [TextF (pos t) [c]]
-                          /\ mem_str [c] (t_math_punctuation T) = true).
+                          /\ mem_str [c] (t_math_punctuation T) = true)) \/
+  (* an equation without its end is left as the full mode renders it, with
+     its error mark (C08) *)
+  (exists out z,
+    display_sections T rec fuel st buf (pos t) ename true true
+      [ActionT (pos t); SpaceF (pos t) [c_space; c_space]] = Ok (st', out, rest, z, false)).
 Proof. exact display_simple. Qed.
 Print Assumptions C11_simple_mode.
 
